@@ -13,6 +13,24 @@
 //! ∪ cmap-14 closure ∪ COLR closure ∪ composite closure. The property only
 //! demands requested glyphs, .notdef and components (`r_min`); the superset
 //! (`r_full`) is cross-checked against the subset's glyph count.
+//!
+//! Workload: every glyf-flavoured font of the corpus (+ klippa's test fonts)
+//! × { subset-to-everything, ALL 2^k character subsets of fonts with k ≤ 13
+//! (14 in the thorough tier) mapped characters, every glyph alone by id,
+//! random requests (1, 2, few, half, all−1, all characters; windows of
+//! consecutive code points; unmapped characters; glyph-id singles, ranges,
+//! composites, out-of-range ids) } × flag combinations; every clean subset is
+//! subset again with the same request (idempotence) and checked the same way
+//! with the first subset in the original's role.
+//!
+//! Refutations caused by an already analysed defect get a signature naming
+//! that defect, each verified structurally on the subset itself (e.g.
+//! `loca-past-glyf-end`, `metrics-differ:hvar-dropped`,
+//! `cmap-wrong-glyph:format4-multi-rangeoffset`), so that any other cause is
+//! still reported under the generic `<what>:<kind>:<retain|renum>:<font>`.
+//!
+//! `vf-c17-probe` (src/bin/probe.rs) subsets one font with one request and
+//! dumps tables / glyphs: the reproducer tool for the findings.
 use font_types::{F2Dot14, GlyphId, NameId, Tag};
 use klippa::{subset_font, Plan, SubsetFlags, DEFAULT_LAYOUT_FEATURES};
 use read_fonts::collections::IntSet;
